@@ -30,6 +30,9 @@ CLAIMS = {
  'C07': dict(cat='proof', ref='DESIGN.md section 4, C07',
    text='pre/post test actions proved: a failure is added exactly once iff not ignoring, expected != leaks, no earlier failure; afterwards no block is left in the checking period (demotion: bounded), flags reset. The blame lemma is pen and paper over the C04/C06 contracts.',
    note='that pre/post bracket setup..teardown is in try/catch code (C01 gap); demotion loop bounded'),
+ 'C08': dict(cat='other', ref='DESIGN.md section 9.9 (C08 as built)',
+   text='PARTIAL claim, four layers under contract, none of which is the history-level iff of the statement: (L1) the per-expectation predicates and counters of MockCheckedExpectedCall (an expectation with expected count n is a candidate for exactly n calls and fulfilled exactly at n, for every 32-bit n; order window; parameter/object matching state), full domain; (L2) all MockExpectedCallsList operations as bounded stand-ins over every list shape of up to 3 nodes (4 in the thorough tier) with arbitrary per-expectation predicate answers: counts and existence tests are the textbook ones, every onlyKeep* keeps exactly the qualifying nodes in order and releases each dropped node once without ever releasing an expectation, removeFirst*/getFirst* take the first qualifying one, add* append the qualifying source expectations in order; (L3) the steps of MockCheckedActualCall (withName, checkInput/OutputParameter, onObject, completeCallWhenMatchIsFound, checkExpectations, failTest: a failure is delivered at most once, the failing step is the one that empties the candidate list, exactly one expectation is counted for a succeeding call) over an abstract candidate set of 3 expectations; (L4) MockSupport expectNCalls / actualCall / checkExpectations for a scope without nested scopes (strict-order windows tile, previous call judged once). That every scenario passes iff the multisets agree is an induction over these steps that no obligation discharges.',
+   note='partial claim; bounded stand-ins labelled in the evidence; trusted: virtual dispatch to the checked classes, value comparison (C09), failure texts; undecided clauses in contracts/C08.undecided.txt'),
  'C09': dict(cat='proof', ref='DESIGN.md section 4, C09',
    text='MockNamedValue::equals proved against the statement for all pairs of the 13 stored type tags plus an arbitrary other tag with full-width symbolic values: integer pairs by sign and magnitude in both directions, identity for bool/pointers, different non-integer tags never equal; widening getters return the stored integer or fail.',
    note='trusted: tag strings modelled byte-wise in fresh 24-byte objects; string/memory/double comparisons through the C13/C03 contracts'),
@@ -62,7 +65,6 @@ CLAIMS = {
    note='partial claim; undecided clauses in contracts/C20.undecided.txt'),
 }
 NOT_APPLICABLE = {
- 'C08': 'verdict exactness over all mock call histories: the mock engine is C++ object graphs with value-semantics temporaries and destructor-held ownership; CBMC cannot parse it, the C lowering stops at destructors, and no per-function contract implies the history-level iff',
  'C16': 'well-formedness of the emitted XML is a grammar-membership property of printf-formatted text assembled from C++ string temporaries; no function contract states it and there is no XML judge in the verifier',
 }
 PENDING = 'contracts not yet written in this round (planned claim, see DESIGN.md section 4); not claimed until a check exists'
